@@ -30,7 +30,9 @@ Theorem C13_shape : forall ctx q rep,
       if can_stale_on_error (rc_fresh ctx)
            [resp_stale_if_error (parse_cc (e_hdr (rc_stored ctx))); req_stale_if_error (rc_cc_req ctx)] now
       then Ret (OResp (response_of (entry_with_hdr (rc_stored ctx)
-             (apply_status STALE (hset (bs "Age") (age_header_value (rc_fresh ctx) now) (e_hdr (rc_stored ctx)))))))
+             (apply_status STALE (hset (bs "Age") (age_header_value (rc_fresh ctx) now)
+                (strip_qualified (match resp_no_cache (parse_cc (e_hdr (rc_stored ctx))) with Some raw => no_cache_fields raw | None => None end)
+                   (e_hdr (rc_stored ctx))))))))
       else after)
     /\ match rep with RErr => after = Ret OErr | RResp r => Leaves (origin_answer r) after end.
 Proof. exact hvr_sie_shape. Qed.
